@@ -343,3 +343,16 @@ def explore_units(factory: Callable[..., Any], fargs: tuple, units: Sequence[Any
         for agg in pool.imap_unordered(_run_unit, jobs, chunksize=chunk):
             total.merge(agg)
     return total
+
+
+def guarded_part(fn: Callable[[], Dict[str, Any]], seconds: float, case: Dict[str, Any]) -> Dict[str, Any]:
+    """Run a sequential part of a check (in the main process) under the watchdog: a part that does not finish becomes a
+    'hang' violation instead of a check that never ends."""
+    try:
+        with watchdog(seconds):
+            return fn()
+    except Hang as hang:
+        return {'n': 0, 'nontrivial': 0, 'restores': 0,
+                'violations': [{'clause': 'hang', 'features': dict(case), 'case': dict(case),
+                                'detail': f'this part of the check did not finish within {seconds}s (unbounded loop?)\n{hang}'}]}
+
